@@ -399,7 +399,7 @@ func c05Run(r *mon.Run) {
 	}
 
 	// 1. reference comparisons (expensive references: thousands of points)
-	nref := r.Pick(300, 3000)
+	nref := r.Pick(1500, 6000)
 	r.Parallel("norm-cdf-ref", nref, func(w *mon.W, i int) {
 		rng := w.Rng
 		mu, sigma := randNormal(rng)
@@ -411,7 +411,7 @@ func c05Run(r *mon.Run) {
 		w.Distinct(mon.NewHasher().S(c.Op).F(mu).F(sigma).Fs(mon.Un(c.Xs)).Sum())
 		c05Judge(w, c)
 	})
-	r.Parallel("t-cdf-ref", r.Pick(3000, 40000), func(w *mon.W, i int) {
+	r.Parallel("t-cdf-ref", r.Pick(20000, 200000), func(w *mon.W, i int) {
 		rng := w.Rng
 		v := randV(rng)
 		if i%16 == 0 {
@@ -429,7 +429,7 @@ func c05Run(r *mon.Run) {
 		c05Judge(w, c)
 	})
 	// 2. cheap laws on many points
-	r.Parallel("norm-laws", r.Pick(500, 10000), func(w *mon.W, i int) {
+	r.Parallel("norm-laws", r.Pick(4000, 40000), func(w *mon.W, i int) {
 		rng := w.Rng
 		mu, sigma := randNormal(rng)
 		c := c05Case{Op: "norm-laws", Mu: mon.F(mu), Sigma: mon.F(sigma)}
@@ -440,7 +440,7 @@ func c05Run(r *mon.Run) {
 		w.Distinct(mon.NewHasher().S(c.Op).F(mu).F(sigma).Fs(mon.Un(c.Xs)).Sum())
 		c05Judge(w, c)
 	})
-	r.Parallel("t-laws", r.Pick(500, 10000), func(w *mon.W, i int) {
+	r.Parallel("t-laws", r.Pick(4000, 40000), func(w *mon.W, i int) {
 		rng := w.Rng
 		v := randV(rng)
 		if i%5 == 0 {
@@ -455,7 +455,7 @@ func c05Run(r *mon.Run) {
 		c05Judge(w, c)
 	})
 	// 3. InvCDF
-	r.Parallel("norm-inv", r.Pick(300, 3000), func(w *mon.W, i int) {
+	r.Parallel("norm-inv", r.Pick(1500, 10000), func(w *mon.W, i int) {
 		rng := w.Rng
 		mu, sigma := randNormal(rng)
 		if i%3 == 0 {
